@@ -395,7 +395,7 @@ def main():
             continue
         reported.add((fn, tn))
         ck.violation(f"fp_math.{FNS[fn]}{a} with np.{tn} operand(s) (a type it is called with inside Vela) gives {real}; "
-                     f"the same values as Python ints give {m}; gemmlowp/TFLite reference value {spec}", replay, key=KEY_BY_FN.get(fn))
+                     f"Model/FpMath.lean (Python-int semantics) gives {m}; gemmlowp/TFLite reference value {spec}", replay, key=KEY_BY_FN.get(fn))
 
     # from_float / to_float (not used by the compiler itself; covered for completeness of fp_math.py)
     ff_reqs, ff_real = [], []
@@ -587,7 +587,7 @@ def main():
             treqs.append(c["dist_req"])
     touts = ck.model(treqs)
     n_eval += len(treqs)
-    float_diffs = {"entries": 0, "equal": 0, "off_by_one_near_tie": 0, "off_by_one_libm": 0, "worse": 0}
+    float_diffs = {"entries": 0, "equal": 0, "off_by_one_near_tie": 0, "worse": 0}
     tab_reported = set()
     for c in tab_cases:
         kind, cfg = c["kind"], c["cfg"]
@@ -615,10 +615,9 @@ def main():
                 if a == b:
                     float_diffs["equal"] += 1
                 elif abs(a - b) == 1 and dists[j] < (1 << 40) * 1e-9:
+                    # unrounded value within 1e-9 of k + 0.5: a last-bit difference of libm / of the division can flip the rounding
                     float_diffs["off_by_one_near_tie"] += 1
-                elif abs(a - b) == 1:
-                    float_diffs["off_by_one_libm"] += 1
-                    ck.sample({"float_table_off_by_one": cfg, "index": j, "implementation": a, "lean_float": b, "tie_distance_2^-40": dists[j]}, limit=24)
+                    ck.sample({"float_table_off_by_one_near_tie": cfg, "index": j, "implementation": a, "lean_float": b, "tie_distance_2^-40": dists[j]}, limit=24)
                 else:
                     float_diffs["worse"] += 1
                     if (kind, "worse") not in tab_reported:
